@@ -5,7 +5,8 @@ it can run while /repo itself is used; the worktree is removed at the end. usage
 import glob, json, os, re, shutil, subprocess, sys
 HOME = os.path.dirname(os.path.dirname(os.path.abspath(__file__)))  # the checkout this script belongs to (a `vp run` snapshot or /verif)
 ids = sys.argv[1:] or sorted(os.path.basename(os.path.dirname(p)) for p in glob.glob(HOME + "/seeded/*/meta.json"))
-WT, WORK, EV = "/tmp/regress_repo", "/tmp/regress_work", "/tmp/regress_evidence"
+_S = os.environ.get("REGRESS_SLOT", "")
+WT, WORK, EV = f"/tmp/regress_repo{_S}", f"/tmp/regress_work{_S}", f"/tmp/regress_evidence{_S}"
 import fcntl
 _lock = open(WT + ".lock", "w")
 fcntl.flock(_lock, fcntl.LOCK_EX)  # one run at a time: two runs sharing the worktree corrupt each other's results
